@@ -7,7 +7,7 @@
    the SliceReader/Cursor semantics of the ByteReader interface (ReadAdapter == SliceReader is C13). *)
 From VBase Require Import MachInt.
 From VModel Require Import Codec.
-From VProofs Require Import CodecPrim CodecTypes CodecExamples.
+From VProofs Require Import CodecPrim CodecTypes CodecTotal CodecExamples.
 Open Scope Z_scope.
 
 (* ------------------------------------------------------------------------------- integers and vint64 *)
@@ -282,3 +282,28 @@ Proof. exact wf_proof_ex. Qed.
 Theorem C12_write_Proof_no_assert : forall p, wf_Proof p -> write_Proof_ok p = true.
 Proof. exact wf_Proof_ok. Qed.
 Print Assumptions C12_write_Proof_no_assert.
+
+(* ------------------------------------------------------------------------------------------ totality *)
+(* no byte string makes any reader of the model panic (every Panic of the model is a constructor assert, and
+   the readers validate before constructing); successful reads leave well-formed bytes *)
+Theorem C12_read_Proof_never_panics : forall bs, is_bytes bs ->
+  match read_Proof bs with Ok (_, rest) => True /\ is_bytes rest | Err _ => True | Panic => False end.
+Proof. exact read_Proof_no_panic. Qed.
+Print Assumptions C12_read_Proof_never_panics.
+
+Theorem C12_read_Context_never_panics : forall bs, is_bytes bs ->
+  match read_Context bs with Ok (_, rest) => True /\ is_bytes rest | Err _ => True | Panic => False end.
+Proof. exact read_Context_no_panic. Qed.
+Print Assumptions C12_read_Context_never_panics.
+
+Theorem C12_read_FriProof_never_panics : forall bs, is_bytes bs ->
+  match read_FriProof bs with Ok (_, rest) => True /\ is_bytes rest | Err _ => True | Panic => False end.
+Proof. exact read_FriProof_no_panic. Qed.
+Print Assumptions C12_read_FriProof_never_panics.
+
+Theorem C12_read_vec_never_panics : forall A (P : A -> Prop) (r : Rd A),
+  (forall bs, is_bytes bs -> match r bs with Ok (a, rest) => P a /\ is_bytes rest | Err _ => True | Panic => False end) ->
+  forall bs, is_bytes bs ->
+  match read_vec_of r bs with Ok (l, rest) => Forall P l /\ is_bytes rest | Err _ => True | Panic => False end.
+Proof. exact @safe_read_vec_of. Qed.
+Print Assumptions C12_read_vec_never_panics.
